@@ -103,8 +103,7 @@ fn differential<'s>(acc: &mut Acc, g: &G, gd: &G, base: &RunOut, dec: &RunOut, b
 }
 
 fn subsets(g: &G, rng: Option<&mut Rng>, max: usize) -> Vec<Vec<(u32, u8)>> {
-    let mut ids = vec![];
-    g.walk(&mut |n| ids.push(n.id));
+    let ids = g.wrappable_ids();
     let n = ids.len();
     let mut out = vec![];
     match rng {
